@@ -532,7 +532,8 @@ Definition check_arrays (S : list str) (B : list blk) (d : xbw) : bool :=
   && (x_maxLabel d =? mapf d 255)
   && chk_rowsA d (rows_of B) 0
   && (x_elements d =? lenN S)
-  && (x_maxlength d =? spec_maxlen S + 1).
+  && (x_maxlength d =? spec_maxlen S + 1)
+  && forallb (fun m => m <? 257) (x_mapping d).
 
 Definition xbw_check_with (S : list str) (B : list blk) (d : xbw) : bool :=
   check_blocks S B && check_arrays S B d.
@@ -540,3 +541,23 @@ Definition xbw_check (S : list str) (d : xbw) : bool := xbw_check_with S (trie_b
 
 (* queries the theorems speak about: C strings (no NUL) that do not contain the terminator label *)
 Definition xq_valid_b (q : list N) : bool := forallb (fun b => (1 <=? b) && (b <=? 254)) q.
+
+(* ------------------------------------------------------------------ *)
+(* D. the public methods as they are in the current tree                *)
+(* ------------------------------------------------------------------ *)
+(* StringDictionaryXBW::locate: `if (strLen == 0) return NORESULT;` precedes the path search
+   (commit 9d5d76b); [xbw_locate] above is the search body that follows it. *)
+Definition xbw_locate_api (d : xbw) (str : list N) : option N :=
+  if lenN str =? 0 then Some 0 else xbw_locate d str.
+
+(* StringDictionaryXBW::extractPrefix: `if (left > right) return NULL;` after subPathSearch
+   (commit 0064a33), before the iterator (and its strncpy into maxlength+1 bytes) is built.
+   Some None = NULL iterator. *)
+Definition xbw_extractPrefix_api (d : xbw) (str : list N) (cap : nat)
+  : option (option (list (list N * N) * bool)) :=
+  match xbw_subPathSearch d (0 :: str) with
+  | None => None
+  | Some (lf, rt) =>
+      if rt <? lf then Some None
+      else option_map Some (xbw_extractPrefix d str cap)
+  end.
